@@ -155,15 +155,17 @@ def write_fit_file(path, infos):
     f.close()
 
 
-def twin_records(W, d, scen, lines, use_memmap=True):
-    """Object-interface twin of fit(): same Fitter arguments, sources parsed from the same lines."""
+def twin_records(W, d, scen, lines, use_memmap=True, specs=None):
+    """Object-interface twin of fit(): same Fitter arguments; the sources are built from the scenario's own numbers
+    when `specs` is given (independent of sedfitter's line parser), otherwise parsed from the same lines."""
+    from .author import make_source
     names, ap = filter_args(W, scen)
     ft = Fitter(names, ap, d, use_memmap=use_memmap, remove_resolved=bool(scen.get('remove_resolved')), **fitter_kwargs(W, scen))
     out = []
-    for ln in lines:
+    for k, ln in enumerate(lines):
         if len(ln.split()) < 3:
             break
-        s = Source.from_ascii(ln)
+        s = make_source({kk: vv for kk, vv in specs[k].items() if kk != 'arrays'}) if specs is not None else Source.from_ascii(ln)
         if s.n_data >= scen['n_data_min']:
             info = ft.fit(s)
             if not scen['output_convolved']:
